@@ -151,7 +151,7 @@ func vBE(v, n int) string {
 // physical layout an independent writer chooses for the file.
 //
 //symgo:harness prop=C01 kernel=K5-whole-file-layouts
-//symgo:desc file bytes produced by a harness-local PDF writer and read through the file content model (os.Open/Stat/Seek/Read of the real reader; natively a real temporary file); logical document: 2 pages, page i shows "Page<i> first" and "Page<i> second" with Helvetica/WinAnsi; enumerated physical choices: cross-reference as classic table or as (unfiltered) cross-reference stream; with an xref stream, non-stream objects packed into an (unfiltered) object stream or not; page content in one stream or split over an array of two streams between operators; /Length direct or by reference with the length object after the stream; pages directly under the root or under an intermediate /Pages node, with /Resources and /MediaBox on the page or inherited from the root; zero or one incremental revision that replaces page 1's content stream or page 1's page object (which then points to a new content stream) (classic revisions append a classic section with /Prev, stream revisions an xref stream with /Prev and /Index); line ends LF or CRLF; page 1's content stream short or - for flat page trees, LF and unfiltered content - longer than 4 KB (padded with comment lines); content streams unfiltered or ASCIIHex over Flate (quick), plus Flate alone and ASCIIHex under its abbreviated name /AHx (thorough) - the Flate data are stored deflate blocks, inflated by the real compress/zlib, interpreted: PageCount is 2 and Pages(i).Text() holds exactly page i's current texts in content order and none of the other page's or of the replaced revision
+//symgo:desc file bytes produced by a harness-local PDF writer and read through the file content model (os.Open/Stat/Seek/Read of the real reader; natively a real temporary file); logical document: 2 pages, page i shows "Page<i> first" and "Page<i> second" with Helvetica/WinAnsi; enumerated physical choices: cross-reference as classic table or as (unfiltered) cross-reference stream; with an xref stream, non-stream objects packed into an (unfiltered) object stream or not; page content in one stream or split over an array of two streams between operators; /Length direct or by reference with the length object after the stream; pages directly under the root or under an intermediate /Pages node, with /Resources and /MediaBox on the page or inherited from the root; zero, one or two incremental revisions: one that replaces page 1's content stream or page 1's page object (which then points to a new content stream), or two in a row replacing page 1's and then page 2's content stream (three cross-reference sections) (classic revisions append a classic section with /Prev, stream revisions an xref stream with /Prev and /Index); line ends LF or CRLF; page 1's content stream short or - for flat page trees, LF and unfiltered content - longer than 4 KB (padded with comment lines); content streams unfiltered or ASCIIHex over Flate (quick), plus Flate alone and ASCIIHex under its abbreviated name /AHx (thorough) - the Flate data are stored deflate blocks, inflated by the real compress/zlib, interpreted: PageCount is 2 and Pages(i).Text() holds exactly page i's current texts in content order and none of the other page's or of the replaced revision
 func H_C01_text_survives_physical_layout() {
 	xrefStream := vAnyIntIn(0, 1) == 1
 	pack := xrefStream && vAnyIntIn(0, 1) == 1
@@ -159,7 +159,9 @@ func H_C01_text_survives_physical_layout() {
 	indirectLen := vAnyIntIn(0, 1) == 1
 	deep := vAnyIntIn(0, 1) == 1
 	inherit := vAnyIntIn(0, 1) == 1
-	reviseKind := vAnyIntIn(0, 2) // 0 none, 1 replace page 1's content stream, 2 replace page 1's page object (new content stream)
+	// 0 none, 1 replace page 1's content stream, 2 replace page 1's page object (new content stream),
+	// 3 two further revisions: the first replaces page 1's content stream, the second page 2's
+	reviseKind := vAnyIntIn(0, 3)
 	revise := reviseKind > 0
 	eol := "\n"
 	if vAnyIntIn(0, 1) == 1 {
@@ -256,6 +258,7 @@ func H_C01_text_survives_physical_layout() {
 	}
 	first := writeXRef(-1, nums, 30, 31)
 	want1 := []string{"Page1 first", "Page1 second"}
+	want2 := []string{"Page2 first", "Page2 second"}
 	if revise {
 		// the revision replaces the (first) content stream of page 1; a split page keeps its second stream
 		lenBefore := nextLen
@@ -277,12 +280,28 @@ func H_C01_text_survives_physical_layout() {
 			putContent(10, "BT /F1 12 Tf 72 720 Td (Page1 revised) Tj ET")
 			want1 = []string{"Page1 revised"}
 		}
-		if reviseKind == 1 {
+		if reviseKind == 1 || reviseKind == 3 {
 			rev := []int{10}
 			for n := lenBefore; n < nextLen; n++ {
 				rev = append(rev, n)
 			}
-			writeXRef(first, rev, 28, 29)
+			second := writeXRef(first, rev, 28, 29)
+			if reviseKind == 3 {
+				// a third cross-reference section: page 2's (first) content stream is replaced as well
+				lenBefore = nextLen
+				if split {
+					putContent(12, "BT /F1 12 Tf 72 720 Td (Page2 revised) Tj"+eol)
+					want2 = []string{"Page2 revised", "Page2 second"}
+				} else {
+					putContent(12, "BT /F1 12 Tf 72 720 Td (Page2 revised) Tj ET")
+					want2 = []string{"Page2 revised"}
+				}
+				rev3 := []int{12}
+				for n := lenBefore; n < nextLen; n++ {
+					rev3 = append(rev3, n)
+				}
+				writeXRef(second, rev3, 26, 27)
+			}
 		}
 	}
 	name := "/tmp/symgo-replay-c01.pdf"
@@ -312,7 +331,11 @@ func H_C01_text_survives_physical_layout() {
 		absent1 = append(absent1, "Page1 second")
 	}
 	check(1, want1, absent1)
-	check(2, []string{"Page2 first", "Page2 second"}, []string{"Page1"})
+	absent2 := []string{"Page1"}
+	if reviseKind == 3 {
+		absent2 = append(absent2, "Page2 first")
+	}
+	check(2, want2, absent2)
 	vReach("end")
 }
 
